@@ -485,8 +485,20 @@ class CHECK(vlib.Check):
             for bufsz in (64, 256):
                 for s2 in (bufsz - 9, bufsz - 8, bufsz - 7, bufsz, bufsz + 1):
                     add("gw-c-capacity", "microgw,%d|%s" % (bufsz, frame(rand_bytes(rng, max(1, s2))).hex()))
-        for s1 in (1, 2, 7, 8, 9):
+        for s1 in (1, 2, 7, 8, 9, 12, 13):
             add("gw-c-capacity", "minigw|" + frame(rand_bytes(rng, s1)).hex())
+        # ... the same under other read segmentations, three frames in a row, and the 64 KiB regime (after a frame larger
+        # than 64 KiB the mini gateway swaps in a 64 KiB buffer)
+        for e in gwmsgs[3:5]:
+            body = bytes(e.b)
+            cap = 2 * (len(body) + 8)
+            for s2 in (cap - 8, cap - 7, cap - 3, cap):
+                st = frame(body) + frame(rand_bytes(rng, s2)) + frame(body)
+                add("gw-c-capacity", "minigw|" + chunks_hex(st, rng.choice(segmentations(rng, len(st))[1:])))
+        bigbody = bytes(enc_msg((7, [(b"big", TC["RAWT"], "RAWT", [rand_bytes(rng, 66000)])])).b)
+        for s2 in ((65536 - 7, 65536, 65536 + 1) if not big else (65536 - 9, 65536 - 8, 65536 - 7, 65536 - 1, 65536, 65536 + 1)):
+            st = frame(bigbody) + frame(rand_bytes(rng, s2))
+            add("gw-c-capacity", "minigw|" + chunks_hex(st, [8, len(bigbody) + 8, len(bigbody) + 16]))
         for _ in range(40 if not big else 400):
             n = rng.choice([1, 7, 8, 9, 20, 60])
             b = rand_bytes(rng, n)
